@@ -1,4 +1,5 @@
 import WellenModel.Proofs.VcdStop
+import WellenModel.Proofs.Truncation
 /-!
 # C15 — a truncated VCD loads as a prefix of the complete one
 
@@ -7,6 +8,17 @@ Proved about the body parser (every byte string, every cut position):
   from the token that was cut — a prefix of the events of the whole input;
 * `C15_boundary_exact`: when the cut falls after a complete line (no pending token, no vector
   value waiting for its id) the prefix's events are exactly a prefix, and the parse succeeds;
+* `C15_time_table_prefix`: when the truncated and the complete body both load, the truncated time
+  table without its last entry is a prefix of the complete one (store level: through
+  `VcdEncoder`, `Encoder::time_change`, `finish`);
+* `C15_waveform_agrees_partial`: the abstract waveforms (C02/C04 specification) of the truncated
+  and of the complete body both extend the waveform of their common events: same initial time
+  table, each change list an initial part, equal changes strictly before the last common time
+  step. PARTIAL: the property speaks of the changes before the *truncated file's* last time; when
+  the cut token is itself a timestamp that opens a new step (`#12` of `#123`), the changes AT the
+  last common step are covered only through the fact that the completed token is again a
+  timestamp (`#123` ≥ `#12`), which is not proved here (the differential run checks it on every
+  cut position of every generated file);
 * the parser is a total function (structural recursion): it cannot hang.
 NOT provable, because false for the current code (finding F7): "never panics" — a value token that
 is cut before / inside its identifier code or inside a real number reaches `unwrap`s in
@@ -25,6 +37,29 @@ theorem C15_boundary_exact (stop : Option Nat) (bs1 bs2 : List Nat) (nl : Bool) 
     evsOf (parseBody stop bs1 nl) <+: evsOf (parseBody stop (bs1 ++ bs2) nl) ∧
     parseBody stop bs1 nl = .ok m'.evs.reverse :=
   prefix_events_at_boundary stop bs1 bs2 nl m' hm hb hst
+
+/-- store level: the time table of a truncated file, without its last entry, is a prefix of the complete file's -/
+theorem C15_time_table_prefix (c : Store.Codec) (d : Decls) (rm : RealMap) (bs1 bs2 : List Nat) (enc1 enc2 : Store.Enc)
+    (h1 : readValues c d rm bs1 .single = .ok enc1) (h2 : readValues c d rm (bs1 ++ bs2) .single = .ok enc2) :
+    ((Store.finish c enc1).2).dropLast <+: (Store.finish c enc2).2 :=
+  truncated_time_table c d rm bs1 bs2 enc1 enc2 h1 h2
+
+/-- abstract waveform: both the truncated and the complete body's waveform extend the waveform `sc` of the common events -/
+theorem C15_waveform_agrees_partial (types : Array Store.SigType) (d : Decls) (rm : RealMap) (bs1 bs2 : List Nat) (nl : Bool)
+    (ops1 ops2 : List Spec.Op)
+    (h1 : opsOfEvs d rm (implicitZero (evsOf (parseBody none bs1 nl))) = some ops1)
+    (h2 : opsOfEvs d rm (implicitZero (evsOf (parseBody none (bs1 ++ bs2) nl))) = some ops2)
+    (s0 s1 s2 : Spec.St) (hw : s0.ttLen = s0.ttRev.length)
+    (f1 : Spec.foldSpec types ops1 s0 = some s1) (f2 : Spec.foldSpec types ops2 s0 = some s2) :
+    ∃ sc : Spec.St, sc.ttRev <:+ s1.ttRev ∧ sc.ttRev <:+ s2.ttRev ∧
+      ∀ i, (∃ n1, s1.changesRev.getD i [] = n1 ++ sc.changesRev.getD i []) ∧
+           (∃ n2, s2.changesRev.getD i [] = n2 ++ sc.changesRev.getD i []) ∧
+           (s1.changesRev.getD i []).filter (fun p => p.1 < sc.ttLen - 1) =
+             (s2.changesRev.getD i []).filter (fun p => p.1 < sc.ttLen - 1) := by
+  obtain ⟨pre, ⟨r, hr⟩, hx⟩ := prefix_events none bs1 bs2 nl
+  rw [← hr] at h2
+  obtain ⟨_, sc, _, _, a, b, c⟩ := truncated_waveform types d rm pre r _ hx ops1 ops2 h1 h2 s0 s1 s2 hw f1 f2
+  exact ⟨sc, a, b, c⟩
 
 /-- non-vacuity: cutting `…\n#12|3\n1!` inside the timestamp yields the time 12 as the one extra event -/
 example : evsOf (parseBody none [10, 35, 53, 10, 49, 33, 10, 35, 49, 50]) =
